@@ -204,10 +204,9 @@ def rawIncrease : List Sample → Rat
   | _ => 0
 
 /-- "the difference between the first and last value" (`delta`). -/
-def rawDelta (w : List Sample) : Rat :=
-  match w, w.getLast? with
-  | first :: _, some last => last.v - first.v
-  | _, _ => 0
+def rawDelta : List Sample → Rat
+  | [] => 0
+  | first :: rest => ((first :: rest).getLast (by simp)).v - first.v
 
 /-- "If samples are close enough to the boundary (up to 10% more than the average duration between
     samples) we extrapolate all the way to the boundary, otherwise by half an average interval." -/
@@ -224,12 +223,14 @@ structure Pieces where
     `c11` is the "10% more" factor (`11/10`; a parameter only so that the judge can probe both
     sides of an exact tie, where binary64 rounding of `1.1 * avg` decides). -/
 def piecesC (c11 : Rat) (isCounter : Bool) (rangeStart rangeEnd : Int) (w : List Sample) : Option Pieces :=
-  match w, w.getLast? with
-  | first :: rest, some last =>
+  match w with
+  | [] => none
+  | first :: rest =>
+    let last := (first :: rest).getLast (by simp)
     let n1 : Rat := (rest.length : Int)
-    let raw := if isCounter then rawIncrease w else rawDelta w
+    let raw := if isCounter then rawIncrease (first :: rest) else rawDelta (first :: rest)
     let sampled : Rat := ((last.t - first.t : Int) : Rat) / 1000
-    let avg : Rat := if rest.length > 0 then sampled / n1 else 0
+    let avg : Rat := if (rest.length : Int) > 0 then sampled / n1 else 0
     let toStart : Rat := ((first.t - rangeStart : Int) : Rat) / 1000
     let toEnd : Rat := ((rangeEnd - last.t : Int) : Rat) / 1000
     if isCounter ∧ first.st ≠ 0 ∧ rangeStart < first.st ∧ first.st < first.t then
@@ -237,7 +238,7 @@ def piecesC (c11 : Rat) (isCounter : Bool) (rangeStart rangeEnd : Int) (w : List
       -- use that point instead of extrapolating to the left
       some { raw := raw + first.v, sampled := ((last.t - first.st : Int) : Rat) / 1000,
              extStart := 0, extEnd := limitExtrapolation c11 avg toEnd }
-    else if rest.length = 0 then none
+    else if (rest.length : Int) = 0 then none
     else
       let extStart := limitExtrapolation c11 avg toStart
       -- "Counters cannot be negative": never extrapolate beyond the counter's zero point
@@ -247,7 +248,6 @@ def piecesC (c11 : Rat) (isCounter : Bool) (rangeStart rangeEnd : Int) (w : List
           if toZero < extStart then toZero else extStart
         else extStart
       some { raw := raw, sampled := sampled, extStart := extStart, extEnd := limitExtrapolation c11 avg toEnd }
-  | _, _ => none
 
 def pieces := piecesC (11 / 10)
 
